@@ -245,6 +245,8 @@ func ruleMatcherBodies(r *Run) {
 		}
 		var sites []site
 		hosts := []*ssa.Function{fn}
+		// ... or in a function literal of Process that is handed to a shared helper
+		hosts = append(hosts, fn.AnonFuncs...)
 		allInstrs(fn, func(in ssa.Instruction) {
 			mc, ok := in.(*ssa.MakeClosure)
 			if !ok {
@@ -476,6 +478,22 @@ func isRecvField(v ssa.Value, fn *ssa.Function) bool {
 // isRecvValue: base is the receiver parameter, or the local cell a value
 // receiver was spilled into (an Alloc whose only store is the parameter).
 func isRecvValue(fn *ssa.Function, base ssa.Value) bool {
+	// inside a function literal of a method: the captured receiver of the enclosing method
+	if fn.Parent() != nil {
+		b := base
+		if lu, ok := b.(*ssa.UnOp); ok && lu.Op == token.MUL {
+			b = lu.X
+		}
+		if fv, ok := b.(*ssa.FreeVar); ok {
+			if bound := freeVarBinding(fv); bound != nil {
+				if lu, ok := bound.(*ssa.UnOp); ok && lu.Op == token.MUL {
+					bound = lu.X
+				}
+				return isRecvValue(fn.Parent(), bound) || isRecvValue(fn.Parent(), spillParam(bound))
+			}
+		}
+		return false
+	}
 	if len(fn.Params) == 0 {
 		return false
 	}
